@@ -81,6 +81,7 @@ type c18World struct {
 	closerRunning bool         // a 'J' CloseIdleConnections has not returned yet
 	scratch       map[int]bool // connections that were idle when it started (its snapshot), by id
 	slowClose     bool
+	faultR        map[int]bool // connections with an armed SetReadDeadline fault: their next request is never answered
 }
 
 // recoverActor turns a panic inside fasthttp on an actor's goroutine into a violation instead of a crash.
@@ -98,7 +99,7 @@ func (w *c18World) violate(key, detail string) {
 }
 
 func newC18World(max, mode int, fifo bool) *c18World {
-	w := &c18World{max: max, mode: mode, open: map[int]bool{}, busy: map[int]int{}, wcActor: map[*fasthttp.VerifWantConn]int{}, scratch: map[int]bool{}}
+	w := &c18World{max: max, mode: mode, open: map[int]bool{}, busy: map[int]int{}, wcActor: map[*fasthttp.VerifWantConn]int{}, scratch: map[int]bool{}, faultR: map[int]bool{}}
 	hc := &fasthttp.HostClient{Addr: "pool.test:80", MaxConns: max, MaxIdleConnDuration: c18IdleDur, MaxResponseBodySize: c18MaxBody}
 	hc.ConnPoolStrategy = fasthttp.LIFO
 	if fifo {
@@ -146,6 +147,13 @@ func (w *c18World) serve(c *memConn) {
 		}
 		a := r.qInt("a", -1)
 		w.mu.Lock()
+		if w.faultR[c.id] {
+			// the client's SetReadDeadline fails right after this request was flushed: the call ends with that error and
+			// the request is never answered
+			delete(w.faultR, c.id)
+			w.mu.Unlock()
+			continue
+		}
 		if prev, ok := w.busy[c.id]; ok {
 			w.violate("double-lend", fmt.Sprintf("request of actor %d arrived on connection %d while the request of actor %d is unanswered", a, c.id, prev))
 		}
@@ -282,6 +290,29 @@ func (w *c18World) apply(code byte, n int) bool {
 		r := pr[(n/4)%len(pr)]
 		w.ops = append(w.ops, []byte{'S', byte(r.actor*4 + n%4)})
 		r.gate <- n % 4
+	case 'E':
+		// arm a one-shot deadline fault on a connection that carries no request now (idle, or held by an actor that
+		// will release it): the next SetWriteDeadline (kind 0) / SetReadDeadline (kind 1) call on it fails
+		w.mu.Lock()
+		var cand []int
+		for id := range w.open {
+			if _, busy := w.busy[id]; busy || w.scratch[id] || w.conns[id].deadlineFaultArmed() {
+				continue
+			}
+			cand = append(cand, id)
+		}
+		sort.Ints(cand)
+		if len(cand) == 0 {
+			w.mu.Unlock()
+			return false
+		}
+		id, kind := cand[(n/2)%len(cand)], n%2
+		w.conns[id].armDeadlineFault(kind)
+		if kind == 1 {
+			w.faultR[id] = true
+		}
+		w.mu.Unlock()
+		w.ops = append(w.ops, []byte{'E', byte(id*2 + kind)})
 	case 'T':
 		w.ops = append(w.ops, []byte{'T', 0})
 		time.Sleep(c18Short + time.Millisecond)
@@ -446,7 +477,10 @@ func (w *c18World) observe() {
 			inScratch++
 		}
 	}
-	if idle := hc.IdleConnsCount(); idle+len(w.held)+len(w.busy)+inScratch != len(w.open) {
+	if idle := hc.IdleConnsCount(); idle+len(w.held)+len(w.busy)+inScratch < len(w.open) {
+		w.violate("conn-leaked", fmt.Sprintf("%d connections are open but only %d idle + %d held by actors + %d with a request at the server + %d in the snapshot of a running CloseIdleConnections: a dialled connection was neither closed nor returned to the pool (ConnsCount() = %d)",
+			len(w.open), idle, len(w.held), len(w.busy), inScratch, cc))
+	} else if idle+len(w.held)+len(w.busy)+inScratch != len(w.open) {
 		w.violate("double-lend", fmt.Sprintf("%d idle + %d held by actors + %d with a request at the server + %d in the snapshot of a running CloseIdleConnections != %d open connections (a connection is in two places, or lost)",
 			idle, len(w.held), len(w.busy), inScratch, len(w.open)))
 	}
@@ -1086,6 +1120,18 @@ func init() {
 			}
 			for i := 0; i < 2*nChaos; i++ {
 				emit("race", []byte{byte(r.Intn(2)), byte(r.Intn(256)), byte(i), byte(i >> 8)})
+			}
+			// connections whose SetWriteDeadline / SetReadDeadline fail at chosen points ('E'), followed by requests and
+			// acquires that must find the pool's accounting intact (MaxConns never blocks after such a failure).
+			// (generated last, so that the streams of the kinds above stay what they were)
+			fc := []byte("AAQQQQQDDDDFRRRCSSSTIEEEE")
+			for i := 0; i < nSeq/3; i++ {
+				cfg := []byte{byte(r.Intn(4)), byte(r.Intn(3)), byte(r.Intn(2))}
+				ops := []byte{'A', 0, 'D', 0, 'R', 0}
+				for j, m := 0, 3+r.Intn(20); j < m; j++ {
+					ops = append(ops, fc[r.Intn(len(fc))], byte(r.Intn(8)))
+				}
+				emit("seq", cfg, ops)
 			}
 		},
 	})
